@@ -284,6 +284,28 @@ def run(ctx):
                     continue
                 apply_all(o[1], e, grid_envs, 'ss:' + A.shape(e), remake=parse_remake(level))
 
+    # B2. every binary operator x every pair of operand kinds the parser accepts (heterogeneous pairs included:
+    # the left operand of `in` and both sides of `=` only have to be primitive)
+    leaves = (A.num('2'), A.num('0'), A.string('a'), A.string('2'), A.boolean(True), A.fld('x'), A.fld('s'), A.fld('p'),
+              ('set', (A.num('1'), A.num('2'))), ('set', (A.string('a'), A.string('b'))), ('set', (A.fld('x'), A.num('2'))),
+              ('range', A.num('1'), A.num('3'), False, False), ('range', A.num('0'), ('bin', '+', A.num('1'), A.num('2')), True, True),
+              ('range', A.fld('x'), A.num('3'), False, True), A.fld('xs'), ('call', 'len', (A.fld('xs'),)))
+    cellno = 0
+    for op in ('and', 'or', 'implies', 'iff', '=', '!=', '<', '<=', '>', '>=', 'in', '+', '-', '*', '/', '**'):
+        for a in leaves:
+            for b in leaves:
+                cellno += 1
+                if not ctx.mine(cellno):
+                    continue
+                e = ('bin', op, a, b)
+                o = hplapi.outcome(PE.parse, A.render_expr(e))
+                if o[0] != 'ok':
+                    ctx.skip('operand-kinds-rejected:' + type(o[1]).__name__)
+                    continue
+                ctx.count('operand_kind_pairs_accepted')
+                apply_all(o[1], e, grid_envs, f'kinds:{op}|{a[0]}:{a[1] if a[0] == "lit" else ""}|{b[0]}:{b[1] if b[0] == "lit" else ""}',
+                          extra_feats=('shape:operand-kinds',), remake=parse_remake('expression'))
+
     # C. random typed expressions and predicates
     for n in range(ctx.share(B['random'])):
         t = gen.pick(rng, (gen.BOOL, gen.BOOL, gen.NUM, gen.STR))
